@@ -112,6 +112,7 @@ _EXT_MAP = {
     "datetime.datetime": EXT("datetime"),
     "ipaddress.IPv4Network": EXT("IPv4Network"),
     "numpy.random.Generator": EXT("rng"),
+    "numpy.random._generator.Generator": EXT("rng"),
     "pathlib.Path": EXT("Path"),
 }
 
@@ -185,7 +186,7 @@ def parse_ann(node, module: ModuleInfo, cls: Optional[ClassInfo] = None, depth=0
                 return {str: STR, int: INT, bool: BOOL}.get(type(v.value), ANY)
             return ANY
         if hname == "Type":
-            return ANY
+            return Ty("type", P(args[0]))
         if hname == "Callable":
             return CALLABLE
         return P(head)
